@@ -142,10 +142,12 @@ theorem contains_digitChars' (ds : List Nat) (hd : ∀ d ∈ ds, d < 10) (x : Na
   obtain ⟨d, _, e⟩ := h
   omega
 
-/-- A well-formed literal of at most 15 digits, written with the marks in force `(non', dec')`, under separators
-for which the positional multi-decimal rule is not in force: exact value. -/
-theorem literal_exact_of_uniform (tab : DigitTab) (ht : tab.Ascii) (c : SepCfg) (l : Literal) (dec' non' : Nat)
-    (hs : Bool) (hes : effectiveSeps c (l.text non' dec') = (dec', non', hs)) (hu : (c.multiDec && hs) = false)
+/-- A well-formed literal of at most 15 digits, written with the marks in force `(non', dec')`, whose integer part
+is an `IntPart` under those separators: exact value. -/
+theorem literal_exact_of_intpart (tab : DigitTab) (ht : tab.Ascii) (c : SepCfg) (l : Literal) (dec' non' : Nat)
+    (hs : Bool) (hes : effectiveSeps c (l.text non' dec') = (dec', non', hs))
+    (hint : IntPart c.multiDec non' hs (l.text non' dec').length (leadLen (l.text non' dec'))
+      (if l.neg then 1 else 0) (if l.neg then 45 else 0) (Literal.joinGroups non' l.groups))
     (hw : l.WellFormed) (hdec : dec' < 48 ∧ dec' ≠ 45 ∧ dec' ≠ 32 ∧ dec' ≠ 47 ∧ dec' ≠ non')
     (hnon : non' < 48 ∧ non' ≠ 45 ∧ non' ≠ 47) (hb : l.numer < 10 ^ 15) :
     ∃ r, digitalValue 15 tab c (l.text non' dec') 1 = .ok r ∧ r.neg = l.neg ∧ r.exp ≤ 0 ∧
@@ -167,7 +169,7 @@ theorem literal_exact_of_uniform (tab : DigitTab) (ht : tab.Ascii) (c : SepCfg) 
           · omega
           · exact contains_digitChars' _ hw.fdigits 47 (by decide) h
         · simp at h)
-    (intpart_uniform c.multiDec non' hs _ _ hu hn1 _ (joinGroups_chars non' l.groups hw.digits) _ _)
+    (by simpa [Literal.text] using hint)
     ⟨hd1, hd2, hd3, hd5⟩ ⟨hn1, hn2⟩ hw.fdigits
     (by
       intro h
@@ -180,6 +182,15 @@ theorem literal_exact_of_uniform (tab : DigitTab) (ht : tab.Ascii) (c : SepCfg) 
   refine ⟨r, by simpa [Literal.text] using h1, h2, h3, ?_⟩
   rw [hcd] at h4
   exact h4
+
+theorem literal_exact_of_uniform (tab : DigitTab) (ht : tab.Ascii) (c : SepCfg) (l : Literal) (dec' non' : Nat)
+    (hs : Bool) (hes : effectiveSeps c (l.text non' dec') = (dec', non', hs)) (hu : (c.multiDec && hs) = false)
+    (hw : l.WellFormed) (hdec : dec' < 48 ∧ dec' ≠ 45 ∧ dec' ≠ 32 ∧ dec' ≠ 47 ∧ dec' ≠ non')
+    (hnon : non' < 48 ∧ non' ≠ 45 ∧ non' ≠ 47) (hb : l.numer < 10 ^ 15) :
+    ∃ r, digitalValue 15 tab c (l.text non' dec') 1 = .ok r ∧ r.neg = l.neg ∧ r.exp ≤ 0 ∧
+      r.coeff * 10 ^ l.scale = l.numer * 10 ^ (-r.exp).toNat :=
+  literal_exact_of_intpart tab ht c l dec' non' hs hes
+    (intpart_uniform c.multiDec non' hs _ _ hu hnon.1 _ (joinGroups_chars non' l.groups hw.digits) _ _) hw hdec hnon hb
 
 /-- configurations without the multi-decimal rule (pt-br, de-de, it-it, nl-nl, zh-cn, ja-jp in the tree) -/
 theorem literal_exact_simple (tab : DigitTab) (ht : tab.Ascii) (c : SepCfg) (hm : c.multiDec = false) (l : Literal)
@@ -377,5 +388,143 @@ theorem effectiveSeps_literal (c : SepCfg) (hm : c.multiDec = true) (l : Literal
         subst x y
         have : ¬ p < q := by omega
         simp [this]
+
+/-! ### one grouping mark, no fraction, multi-decimal rule in force -/
+
+theorem intpart_digits_append (multiDec : Bool) (non : Nat) (hs : Bool) (len lead : Nat) (a : List Nat)
+    (hd : ∀ d ∈ a, d < 10) (B : Str) :
+    ∀ i prev, (∀ prev', (∀ x, a.getLast? = some x → prev' = x + 48) → (a = [] → prev' = prev) →
+        IntPart multiDec non hs len lead (i + a.length) prev' B) →
+      IntPart multiDec non hs len lead i prev (digitChars a ++ B) := by
+  induction a with
+  | nil => intro i prev h; simpa [digitChars] using h prev (by simp) (fun _ => rfl)
+  | cons d t ih =>
+    intro i prev h
+    simp only [digitChars, List.map_cons, List.cons_append]
+    refine ⟨Or.inl ⟨d, hd d (by simp), rfl⟩, ?_⟩
+    apply ih (fun x hx => hd x (by simp [hx])) (i + 1) (d + 48)
+    intro prev' h1 h2
+    have e : i + 1 + t.length = i + (d :: t).length := by simp; omega
+    rw [e]
+    apply h prev'
+    · intro x hx
+      cases t with
+      | nil => simp at hx; subst hx; exact h2 rfl
+      | cons y ys => exact h1 x (by simpa [List.getLast?_cons_cons] using hx)
+    · intro hnil; cases hnil
+
+theorem leadLen_digit (d : Nat) (r : Str) (h : d < 10) : leadLen ((d + 48) :: r) = 0 := by
+  have e1 : (d + 48 == 45) = false := by simp
+  have e2 : (d + 48 == 32) = false := by simp
+  simp [leadLen, e1, e2]
+
+/-- `1,234`-like literals where the positional rule applies: the mark sits four characters before the end, at
+most three digits after the start, and the single digit before it (if single) is not `0`. -/
+theorem literal_exact_single (tab : DigitTab) (ht : tab.Ascii) (c : SepCfg) (hm : c.multiDec = true) (l : Literal)
+    (hw : l.WellFormed) (a b : List Nat) (hgr : l.groups = [a, b]) (hfr : l.frac = none)
+    (ha : 1 ≤ a.length ∧ a.length ≤ 3 ∧ a.head? ≠ some 0) (hbl : b.length = 3) (g d : Nat)
+    (hgd : (d, g) = (if c.nonStdVariant then (c.nonDecSep, c.decSep) else (c.decSep, c.nonDecSep)))
+    (hdec : d < 48 ∧ d ≠ 45 ∧ d ≠ 32 ∧ d ≠ 47 ∧ d ≠ g) (hnon : g < 48 ∧ g ≠ 45 ∧ g ≠ 47)
+    (hb : l.numer < 10 ^ 15) :
+    ∃ r, digitalValue 15 tab c (l.text g d) 1 = .ok r ∧ r.neg = l.neg ∧ r.exp ≤ 0 ∧
+      r.coeff * 10 ^ l.scale = l.numer * 10 ^ (-r.exp).toNat := by
+  have hes := effectiveSeps_literal c hm l hw g d hgd ⟨hdec.1, hdec.2.1, hdec.2.2.2.2⟩ ⟨hnon.1, hnon.2.1⟩
+  have hsingle : (decide (l.groups.length = 2) && l.frac.isNone) = true := by simp [hgr, hfr]
+  rw [hsingle] at hes
+  refine literal_exact_of_intpart tab ht c l d g true hes ?_ hw hdec hnon hb
+  have hda : ∀ x ∈ a, x < 10 := hw.digits a (by simp [hgr])
+  have hdb : ∀ x ∈ b, x < 10 := hw.digits b (by simp [hgr])
+  obtain ⟨a0, at', hae⟩ : ∃ a0 at', a = a0 :: at' := by
+    cases a with
+    | nil => simp at ha
+    | cons x xs => exact ⟨x, xs, rfl⟩
+  have htext : l.text g d = (if l.neg then [45] else []) ++ (digitChars a ++ g :: digitChars b) := by
+    simp [Literal.text, hgr, hfr, Literal.joinGroups]
+  have hlen : (l.text g d).length = (if l.neg then 1 else 0) + a.length + 4 := by
+    rw [htext]; cases l.neg <;> simp [digitChars, hbl] <;> omega
+  have hlead : leadLen (l.text g d) = (if l.neg then 1 else 0) := by
+    rw [htext, hae]
+    cases l.neg
+    · simp only [Bool.false_eq_true, if_false, List.nil_append, digitChars, List.map_cons, List.cons_append]
+      exact leadLen_digit a0 _ (hda a0 (by simp [hae]))
+    · simp only [if_true, digitChars, List.map_cons, List.cons_append, List.nil_append]
+      rw [leadLen]
+      simp only [BEq.rfl, Bool.true_or, if_true]
+      rw [leadLen_digit a0 _ (hda a0 (by simp [hae]))]
+  rw [hlen, hlead, hm]
+  simp only [hgr, Literal.joinGroups]
+  generalize (if l.neg then 1 else 0 : Nat) = s0
+  generalize (if l.neg then 45 else 0 : Nat) = p0
+  apply intpart_digits_append true g true _ _ a hda
+  intro prev' h1 _
+  refine ⟨Or.inr ⟨hnon.1, ?_⟩, ?_⟩
+  · unfold skipNonDecimal
+    have e1 : s0 + a.length + 4 - (s0 + a.length) = 4 := by omega
+    have e2 : s0 + a.length - s0 = a.length := by omega
+    simp only [e1, e2, BEq.rfl, Bool.and_self, if_true, bne_self_eq_false, Bool.false_or]
+    have c2 : ¬ (a.length > 3) := by omega
+    have c1 : (prev' == 48 && a.length == 1) = false := by
+      rcases Nat.lt_or_ge a.length 2 with hl | hl
+      · -- a = [a0]
+        have hat : at' = [] := by
+          subst hae; simp at hl; exact List.length_eq_zero_iff.mp (by omega)
+        subst hat; subst hae
+        have hp := h1 a0 (by simp)
+        have : a0 ≠ 0 := by
+          intro h0; apply ha.2.2; simp [h0]
+        simp [hp]; omega
+      · have : (a.length == 1) = false := by simp; omega
+        simp [this]
+    simp [c1, c2]
+  · have := intpart_digits_append true g true (s0 + a.length + 4) s0 b hdb [] (s0 + a.length + 1) g
+      (fun _ _ _ => trivial)
+    simpa using this
+
+/-- the marks the parser reads for a configuration: `(grouping, decimal)`; swapped for a non-standard variant of a
+multi-decimal-separator culture (es-mx) -/
+def parserMarks (c : SepCfg) : Nat × Nat :=
+  if c.multiDec && c.nonStdVariant then (c.decSep, c.nonDecSep) else (c.nonDecSep, c.decSep)
+
+/-- **Every literal, every configuration.** A well-formed literal of at most 15 digits written with the
+configuration's own marks denotes exactly its value after `_get_digital_value`. For the multi-decimal-separator
+cultures a literal with exactly one grouping mark and no fraction must be grouped in the standard way (first group
+of 1–3 digits not starting with 0, then three digits) — otherwise the code reads the mark as a decimal mark. -/
+theorem literal_exact (tab : DigitTab) (ht : tab.Ascii) (c : SepCfg) (l : Literal) (hw : l.WellFormed)
+    (hdec : (parserMarks c).2 < 48 ∧ (parserMarks c).2 ≠ 45 ∧ (parserMarks c).2 ≠ 32 ∧ (parserMarks c).2 ≠ 47 ∧
+      (parserMarks c).2 ≠ (parserMarks c).1)
+    (hnon : (parserMarks c).1 < 48 ∧ (parserMarks c).1 ≠ 45 ∧ (parserMarks c).1 ≠ 47)
+    (hstd : c.multiDec = true → l.groups.length = 2 → l.frac = none → l.Grouped3) (hb : l.numer < 10 ^ 15) :
+    ∃ r, digitalValue 15 tab c (l.text (parserMarks c).1 (parserMarks c).2) 1 = .ok r ∧ r.neg = l.neg ∧ r.exp ≤ 0 ∧
+      r.coeff * 10 ^ l.scale = l.numer * 10 ^ (-r.exp).toNat := by
+  cases hm : c.multiDec with
+  | false =>
+    have e : parserMarks c = (c.nonDecSep, c.decSep) := by simp [parserMarks, hm]
+    rw [e] at hdec hnon ⊢
+    exact literal_exact_simple tab ht c hm l hw hdec hnon hb
+  | true =>
+    have hgd : ((parserMarks c).2, (parserMarks c).1) =
+        (if c.nonStdVariant then (c.nonDecSep, c.decSep) else (c.decSep, c.nonDecSep)) := by
+      unfold parserMarks
+      cases c.nonStdVariant <;> simp [hm]
+    by_cases hsingle : l.groups.length = 2 ∧ l.frac = none
+    · have hg3 := hstd hm hsingle.1 hsingle.2
+      obtain ⟨a, b, hab⟩ : ∃ a b, l.groups = [a, b] := by
+        match hgs : l.groups, hsingle.1 with
+        | [a, b], _ => exact ⟨a, b, rfl⟩
+      unfold Literal.Grouped3 at hg3
+      rw [hab] at hg3
+      simp only [List.mem_cons, List.not_mem_nil, or_false, forall_eq] at hg3
+      exact literal_exact_single tab ht c hm l hw a b hab hsingle.2 ⟨hg3.1, hg3.2.1, hg3.2.2.1⟩ hg3.2.2.2 _ _ hgd hdec
+        hnon hb
+    · have hes := effectiveSeps_literal c hm l hw _ _ hgd ⟨hdec.1, hdec.2.1, hdec.2.2.2.2⟩ ⟨hnon.1, hnon.2.1⟩
+      have hns : (decide (l.groups.length = 2) && l.frac.isNone) = false := by
+        by_cases h2 : l.groups.length = 2
+        · have : l.frac ≠ none := fun h => hsingle ⟨h2, h⟩
+          cases hf : l.frac with
+          | none => exact absurd hf this
+          | some _ => simp
+        · simp [h2]
+      rw [hns] at hes
+      exact literal_exact_of_uniform tab ht c l _ _ false hes (by simp) hw hdec hnon hb
 
 end RTV.Num
